@@ -50,6 +50,8 @@ Definition disc_b (c : call) : bool :=
   | Openat2 fd p fl _ rs =>
       real_fd fd && has fl O_CLOEXEC && has rs RESOLVE_NO_MAGICLINKS
       && (has rs RESOLVE_IN_ROOT || (has rs RESOLVE_BENEATH && has rs RESOLVE_NO_XDEV))
+      (* never a controlling terminal: O_NOCTTY unless the open cannot make one (O_PATH, a directory) *)
+      && (has fl O_NOCTTY || has fl O_PATH || has fl O_DIRECTORY)
   | Readlinkat fd n => real_fd fd && is_nil n
   | Fstatat fd n at_ =>
       if Z.eqb fd AT_FDCWD then is_host_proc n && has at_ AT_SYMLINK_NOFOLLOW
